@@ -81,7 +81,15 @@ def next_stage_accepts(stage, out_path, base, ref, wd):
         if stage == 'precompute':
             from cell_type_mapper.taxonomy.taxonomy_tree import TaxonomyTree
             from cell_type_mapper.diff_exp.score_utils import read_precomputed_stats
-            tree = TaxonomyTree.from_precomputed_stats(out_path)
+            # (a) through the taxonomy stored in the file; (b) by a stage that is GIVEN the taxonomy (the reference
+            # marker finder takes the tree as an argument): either way the file must not pass for a complete one
+            try:
+                tree = TaxonomyTree.from_precomputed_stats(out_path)
+                read_precomputed_stats(precomputed_stats_path=out_path, taxonomy_tree=tree, for_marker_selection=True)
+                return True, 'accepted'
+            except BaseException:   # noqa
+                pass
+            tree = TaxonomyTree.from_precomputed_stats(str(base / 'stats.h5'))
             read_precomputed_stats(precomputed_stats_path=out_path, taxonomy_tree=tree, for_marker_selection=True)
         elif stage in ('refmarkers', 'pmarkers'):
             with h5py.File(out_path, 'a') as f:
